@@ -85,6 +85,25 @@ def run(rep, tier, rng):
         for o1, o2, o3 in trip:
             b = apply_op(o3, apply_op(o2, apply_op(o1, base)))
             terms.append((show_op(o3, show_op(o2, show_op(o1, "(m)"))), b))
+    # terms whose identifiers are drawn from the names the INNER set has at that point (so that only / except / rename select
+    # something at every level), with prefixes that are themselves names or beginnings of names, applied once or twice
+    for _ in range(2500 if tier == "quick" else 40000):
+        text, binds = "(m)", base
+        for _lvl in range(rng.randrange(1, 4)):
+            names = [n for n, _ in binds]
+            kind = rng.choice(["only", "except", "prefix", "rename", "prefix"])
+            if kind in ("only", "except"):
+                ids = rng.sample(names, min(len(names), rng.randrange(0, 4))) if names else []
+                if rng.random() < 0.2:
+                    ids.append(rng.choice(["zz", "a", "p-a"]))
+                op = (kind, ids)
+            elif kind == "prefix":
+                op = ("prefix", rng.choice(["p-", "a", "b", "q", "p-", "ab"]))
+            else:
+                src = rng.sample(names, min(len(names), rng.randrange(0, 3))) if names else []
+                op = ("rename", [(x, rng.choice(names + ["x", "y", x + "2"])) for x in src])
+            text, binds = show_op(op, text), apply_op(op, binds)
+        terms.append((text, binds))
     cases, expect = [], {}
     k = 0
     inadmissible = 0
